@@ -5,6 +5,9 @@
 # and undoes it.  Keeps the change under /verif/seeded/<ID>-<X>/ when confirmed.
 set -u
 export GOFLAGS=-mod=mod GOPROXY=off GOSUMDB=off GOTOOLCHAIN=local
+# Env: REPO / VROOT select an alternate universe (a worktree of /repo HEAD and a copy of /verif whose
+# harness go.mod points at it; see tools/altuniverse.sh); results are always stored under /verif/seeded.
+REPO=${REPO:-/repo}; VROOT=${VROOT:-/verif}
 ID=$1; X=$2; shift 2
 CHECKS=${*:-$ID}
 OUT=${SRC:-/tmp/mut/$ID.out}
@@ -13,34 +16,35 @@ PATCH=$OUT/$X.patch.diff
 DEMO=$OUT/${X}_demo_test.go
 [ -f "$PATCH" ] && [ -f "$DEMO" ] || { echo "missing $PATCH or $DEMO"; exit 3; }
 WT=/tmp/sc-$ID-$NAME
+LOGP=/tmp/sc-$ID-$NAME
 git -C /repo worktree remove --force $WT 2>/dev/null; rm -rf $WT
 git -C /repo worktree add -q --detach $WT HEAD || exit 3
 cleanup() { git -C /repo worktree remove --force $WT 2>/dev/null; rm -rf $WT; }
 trap cleanup EXIT
 cd $WT
-if ! git apply --3way "$PATCH" 2>/tmp/sc-apply.err; then echo "PATCH DOES NOT APPLY: $(head -3 /tmp/sc-apply.err)"; exit 4; fi
+if ! git apply --3way "$PATCH" 2>$LOGP-apply.err; then echo "PATCH DOES NOT APPLY: $(head -3 $LOGP-apply.err)"; exit 4; fi
 git diff HEAD --stat | tail -1
 cd v4
 go build ./... || { echo "DOES NOT COMPILE"; exit 4; }
 SUITE=$(go test -vet=off -count=1 ./... 2>&1 | grep -v '^ok' | head -5)
 [ -z "$SUITE" ] && echo "suite: passes with the change" || { echo "suite FAILS with the change: $SUITE"; exit 4; }
 mkdir -p demo && cp "$DEMO" demo/demo_test.go
-if timeout 300 go test -vet=off -count=1 ./demo/ >/tmp/sc-demo1.log 2>&1; then echo "demo PASSES with the change (not a confirmed break)"; exit 4; else echo "demo: fails with the change"; fi
+if timeout 300 go test -vet=off -count=1 ./demo/ >$LOGP-demo1.log 2>&1; then echo "demo PASSES with the change (not a confirmed break)"; exit 4; else echo "demo: fails with the change"; fi
 git -C $WT stash -q -- v4 ':!v4/demo' 2>/dev/null || (cd $WT && git checkout -- . )
 (cd $WT && git checkout -q -- . 2>/dev/null; git status --short | grep -v demo | head -3)
-if timeout 300 go test -vet=off -count=1 ./demo/ >/tmp/sc-demo2.log 2>&1; then echo "demo: passes without the change"; else echo "demo FAILS without the change:"; tail -5 /tmp/sc-demo2.log; exit 4; fi
-cd /verif
-# now against /repo itself
-git -C /repo apply --3way "$PATCH" || { echo "cannot apply to /repo"; exit 4; }
+if timeout 300 go test -vet=off -count=1 ./demo/ >$LOGP-demo2.log 2>&1; then echo "demo: passes without the change"; else echo "demo FAILS without the change:"; tail -5 $LOGP-demo2.log; exit 4; fi
+cd $VROOT
+# now against the repository itself
+git -C $REPO apply --3way "$PATCH" || { echo "cannot apply to $REPO"; exit 4; }
 DET=""
 for c in $CHECKS; do
-  ./vr $c quick > /tmp/sc-check.log 2>&1; rc=$?
-  sig=$(grep -m3 'signature=' /tmp/sc-check.log | sed 's/ occurrences.*//' | tr -d ' ' | tr '\n' ' ')
+  ./vr $c quick > $LOGP-check.log 2>&1; rc=$?
+  sig=$(grep -m3 'signature=' $LOGP-check.log | sed 's/ occurrences.*//' | tr -d ' ' | tr '\n' ' ')
   echo "check $c: exit $rc $sig"
   [ $rc -eq 1 ] && DET="$DET $c"
 done
-git -C /repo reset -q; git -C /repo checkout -q -- . ; git -C /repo status --short | head -3
-git -C /verif checkout -q -- evidence 2>/dev/null
+git -C $REPO reset -q; git -C $REPO checkout -q -- . ; git -C $REPO status --short | head -3
+[ $VROOT = /verif ] && git -C /verif checkout -q -- evidence 2>/dev/null
 D=/verif/seeded/$ID-$NAME
 mkdir -p $D && cp "$PATCH" $D/patch.diff && cp "$DEMO" $D/demo_test.go
 python3 - "$OUT/$X.meta.json" "$D/meta.json" "$DET" "$CHECKS" <<'PY'
